@@ -3,6 +3,7 @@
 from __future__ import annotations
 
 import collections
+import functools
 import itertools
 import os
 import shutil
@@ -148,10 +149,25 @@ def identity(feat: Feat, key_loc: tuple) -> Any:
     return None
 
 
-def position_key(loc: dict) -> tuple:
-    starts = [p[0] for p in loc["parts"]]
-    ends = [p[1] for p in loc["parts"]]
-    return (min(starts), -(sum(e - s for s, e in loc["parts"])), max(ends))
+def position_key(loc: dict, size: int) -> tuple:
+    """ the loader's sort key of an area in a region file of `size` bases: (start, longer first); an area that
+        still spans the origin (only possible in the file of a region covering a whole circular record) sorts
+        before everything else, by how far before the origin it begins (features/cdscollection.py __lt__) """
+    total = sum(e - s for s, e in loc["parts"])
+    if loc_crosses(loc):
+        first = loc["parts"][0] if loc["strand"] != -1 else loc["parts"][-1]
+        return (first[0] - size, -total)
+    return (min(p[0] for p in loc["parts"]), -total)
+
+
+def area_before(one: dict, two: dict, size: int) -> bool:
+    """ the loader's order of two areas: an area containing the other comes first (also the other way round),
+        otherwise the sort key decides (features/cdscollection.py __lt__) """
+    if ring.contains(one, two) and not ring.contains(two, one):
+        return True
+    if ring.contains(two, one) and not ring.contains(one, two):
+        return False
+    return position_key(one, size) < position_key(two, size)
 
 
 # --------------------------------------------------------------------------- the parent, as its own GenBank text
@@ -332,16 +348,20 @@ def judge_file(text: str, parent: Parent, rmap: RegionMap, info: dict) -> tuple:
         else:
             # the loader numbers by position: the file's numbers must follow (start, -length)
             keyed = sorted(pairs, key=lambda pair: int(pair[0].first(NUMBER_KEY[kind])))
-            keys = [position_key(feat.loc)[:2] for feat, _ in keyed]
+            keys = [position_key(feat.loc, rmap.size) for feat, _ in keyed]
             if len(set(keys)) != len(keys):
                 out.ties = True
-            wrong = [(i, j) for i, j in itertools.combinations(range(len(keys)), 2) if keys[i] > keys[j]]
+            wrong = [(i, j) for i, j in itertools.combinations(range(len(keys)), 2)
+                     if area_before(keyed[j][0].loc, keyed[i][0].loc, rmap.size)]
             if wrong:
                 bad("number_order", {"kind": kind,
                                      "by_number": [loc_text(feat.loc) for feat, _ in keyed],
                                      "parent_by_number": [loc_text(origin.loc) for _, origin in keyed],
                                      "parent_numbers_by_file_number": [int(origin.first(NUMBER_KEY[kind]))
-                                                                       for _, origin in keyed]})
+                                                                       for _, origin in keyed],
+                                     "first_part_starts_by_file_number": [feat.loc["parts"][0][0]
+                                                                          for feat, _ in keyed],
+                                     "spanning_area_in_file": any(loc_crosses(feat.loc) for feat, _ in keyed)})
     for feat, origin in by_type.get("proto_core", []):
         product = feat.first("product")
         number = int(feat.first("protocluster_number", "0"))
@@ -413,7 +433,13 @@ def repaired_record(bio: Any, judgement: FileJudgement, parent: Parent, rmap: Re
         by_kind[feat.type].append((feat, origin))
     numbers: dict = {}
     for kind in AREA_TYPES:
-        ordered = sorted(by_kind.get(kind, []), key=lambda pair: (position_key(pair[0].loc)[:2], pair[0].index))
+        def compare(one: tuple, two: tuple) -> int:
+            if area_before(one[0].loc, two[0].loc, rmap.size):
+                return -1
+            if area_before(two[0].loc, one[0].loc, rmap.size):
+                return 1
+            return one[0].index - two[0].index
+        ordered = sorted(by_kind.get(kind, []), key=functools.cmp_to_key(compare))
         numbers[kind] = {identity(feat, compact(ordered_bases(feat.loc), 1)): index + 1
                          for index, (feat, _) in enumerate(ordered)}
     keep = []
@@ -686,6 +712,9 @@ def check_region_files(spec: dict, sub: str = "files", beyond_known: bool = Fals
             if not crosses and start == 0 and end == length:
                 labels.append("region_is_whole_linear_record" if not spec["circular"]
                               else "region_is_whole_circular_record")
+                if any(loc_crosses(ring.from_bio(area.location))
+                       for area in list(region.candidate_clusters) + list(region.subregions)):
+                    labels.append("whole_circle_region_with_spanning_area")
             if index >= 1:
                 labels.append("later_region")
                 if region.candidate_clusters:
@@ -850,7 +879,20 @@ def sig_touching_exons_over_origin(sub, spec, clause, detail) -> bool:
             and detail["count"] == detail["count_origin_spanning_with_touching_exons"])
 
 
+def sig_whole_circle_numbering(sub, spec, clause, detail) -> bool:
+    """ region covering a whole circular record with an area that spans the origin: the file stays circular and
+        keeps that area in two parts, the loader sorts it first, the writer numbers it by the start of its first
+        part """
+    if clause != "number_order" or detail["crosses"] or not spec["circular"]:
+        return False
+    if not (detail["start"] == 0 and detail["end"] == detail["L"] and detail["spanning_area_in_file"]):
+        return False
+    starts = detail["first_part_starts_by_file_number"]
+    return starts == sorted(starts)
+
+
 SIGNATURES = {
+    "whole_circle_numbering": sig_whole_circle_numbering,
     "touching_exons_over_origin": sig_touching_exons_over_origin,
     "region_sized_multipart_feature": sig_region_sized_multipart_feature,
     "region_refs_not_renumbered": sig_region_refs_not_renumbered,
@@ -874,7 +916,7 @@ def record_specs(draw) -> dict:
     circular = draw(st.sampled_from([True, True, False]))
     whole_record = draw(st.integers(0, 5)) == 0
     if whole_record:
-        circular = draw(st.sampled_from([False, False, True]))
+        circular = draw(st.booleans())
     length = draw(st.sampled_from([240, 600, 900, 1500, 2400]))
     ngroups = draw(st.sampled_from([1, 2, 2, 3, 3, 4]))
     # 2n+1 sizes: gap, width, gap, ..., gap; every width >= 12
@@ -909,11 +951,35 @@ def record_specs(draw) -> dict:
         if nproto + nsub == 0:
             nproto = 1
         whole = draw(st.integers(0, nproto + nsub))     # this area covers the whole group (== nproto+nsub: none)
+        ring_mode = "plain"
         if whole_record:
             whole = draw(st.integers(0, nproto + nsub - 1))
+            if circular:
+                # the areas cover every base of the circle: the region is [0:L), an area may still span the origin
+                ring_mode = draw(st.sampled_from(["plain", "whole_plus_spanning", "two_arcs"]))
+                if ring_mode != "plain" and nproto + nsub < 2:
+                    nsub += 1
+                if ring_mode == "two_arcs":
+                    whole = -1
+        spanning_index = (whole + 1) % (nproto + nsub) if ring_mode == "whole_plus_spanning" else -1
         for index in range(nproto + nsub):
             if index == whole:
                 a, b = 0, width
+            elif index == spanning_index:
+                # an arc over the origin, in unrolled coordinates: a < L < b
+                a = draw(gen.coord(2, length - 1))
+                b = a + draw(st.integers(max(3, length - a + 1), length - 1))
+            elif ring_mode == "two_arcs" and index == 0:
+                # one arc over the origin ...
+                a = draw(gen.coord(length // 2, length - 2))
+                reach = draw(gen.coord(2, length // 2 - 1))
+                b = length + reach
+                two_arcs = (a, reach)
+            elif ring_mode == "two_arcs" and index == 1:
+                # ... and one covering the rest, overlapping the first at both of its ends
+                first_start, reach = two_arcs
+                a = reach - draw(st.integers(1, reach))
+                b = first_start + draw(st.integers(1, length - first_start))
             else:
                 a = draw(gen.coord(0, width - 3))
                 b = draw(gen.coord(a + 3, width))
@@ -1055,12 +1121,15 @@ def family_cases():
     }
     positions = {"interior": (30, 300), "touch_0": (0, 300), "touch_end": (30, length - width),
                  "touching_groups": (30, 30 + width), "span": (100, 550), "span_one_before": (100, length - 1),
-                 "span_one_after": (100, length - width + 1), "whole_record": (0,)}
+                 "span_one_after": (100, length - width + 1), "whole_record": (0,),
+                 "whole_circle_spanning_plus_whole": (0,), "whole_circle_two_arcs": (0,)}
     for circular in (False, True):
         for pos_name, offsets in positions.items():
             if pos_name.startswith("span") and not circular:
                 continue
-            if pos_name == "whole_record":
+            if pos_name.startswith("whole_circle") and not circular:
+                continue
+            if pos_name.startswith("whole_"):
                 # a contig exactly as long as one group: its region touches both record ends
                 combos = [(name,) for name in patterns]
                 length = width
@@ -1088,6 +1157,11 @@ def family_cases():
                                               "leader": 3, "tail": 2})
                             elif gstart == 0:
                                 annos.append({"kind": "pfam", "gene": number, "a": 1, "b": 4})
+                    # the areas cover every base of a circle and one of them spans the origin: the region is [0:L)
+                    extra = {"whole_circle_spanning_plus_whole": [(70, 40), (0, width)],
+                             "whole_circle_two_arcs": [(60, 60), (20, 50)]}.get(pos_name, [])
+                    for start, size in extra:
+                        subs.append({"loc": _arc_loc(start, size, length), "label": f"s{len(subs)}", "side": False})
                     yield {"L": length, "circular": circular, "seed": 1, "genes": genes, "protos": protos,
                            "subs": subs, "annos": annos, "mode": mode, "family": [pos_name] + list(names)}
 
